@@ -20,6 +20,8 @@ type boxModel struct {
 	idx             map[int]bool
 	logLen          int
 	a, b            int
+	items           []int
+	recs            [][2]int // tag value, cell value
 }
 
 func newBoxModel() *boxModel { return &boxModel{idx: map[int]bool{}} }
@@ -29,6 +31,8 @@ func (m *boxModel) clone() *boxModel {
 	for k := range m.idx {
 		n.idx[k] = true
 	}
+	n.items = append([]int(nil), m.items...)
+	n.recs = append([][2]int(nil), m.recs...)
 	seen := map[*mnode]*mnode{}
 	var cp func(x *mnode) *mnode
 	cp = func(x *mnode) *mnode {
@@ -129,6 +133,30 @@ func (m *boxModel) apply(fn string, args []string) (panics bool) {
 				}
 			}
 		}
+	case "AddItem":
+		m.items = append(m.items, ai(0))
+		m.recs = append(m.recs, [2]int{ai(0), -ai(0)})
+	case "RemoveItem":
+		if len(m.items) > 0 {
+			i := ai(0) % len(m.items)
+			m.items = append(m.items[:i:i], m.items[i+1:]...)
+			j := i % len(m.recs)
+			m.recs = append(m.recs[:j:j], m.recs[j+1:]...)
+		}
+	case "InsertItem":
+		if len(m.items) == 0 {
+			m.items = append(m.items, ai(1))
+		} else {
+			i := ai(0) % len(m.items)
+			m.items = append(m.items, 0)
+			copy(m.items[i+1:], m.items[i:])
+			m.items[i] = ai(1)
+		}
+	case "SwapItems":
+		if len(m.items) >= 2 {
+			i, j := ai(0)%len(m.items), ai(1)%len(m.items)
+			m.items[i], m.items[j] = m.items[j], m.items[i]
+		}
 	case "Recurse", "Alloc", "BigString":
 	case "Forever":
 		return true // never terminates within gas; always out of gas
@@ -156,5 +184,13 @@ func (m *boxModel) dump() string {
 		fmt.Fprintf(&sb, " shared=%d", m.shared.id)
 	}
 	fmt.Fprintf(&sb, " idx=%d", len(m.idx))
+	sb.WriteString(" items=")
+	for _, v := range m.items {
+		fmt.Fprintf(&sb, "%d,", v)
+	}
+	sb.WriteString(" recs=")
+	for _, r := range m.recs {
+		fmt.Fprintf(&sb, "%d:%d,", r[0], r[1])
+	}
 	return sb.String()
 }
